@@ -297,7 +297,7 @@ def classify(inp):
     return "k%s" % inp.get("k")
 
 
-BUDGET = dict(quick=240, thorough=1000)
+BUDGET = dict(quick=240, thorough=900)
 
 
 def harnesses(tier):
